@@ -191,10 +191,10 @@ func (m c18) Case(c *Ctx, r *RNG) {
 		}
 	}
 	if t.Rel("many") != nil {
-		rs.ToMany["many"] = []string{"z9", "m5", "a1"}
+		rs.ToMany["many"] = []string{"z9", "m5", "a1"}[:r.Range(1, 3)]
 	}
 	if t.Rel("many2") != nil {
-		rs.ToMany["many2"] = []string{"y", "x"}
+		rs.ToMany["many2"] = []string{"y", "x"}[:r.Range(1, 2)]
 	}
 	nm := r.Range(1, 12)
 	var muts []c18mut
@@ -292,6 +292,7 @@ func (m c18) run(c *Ctx, t *TypeSpec, rs *ResSpec, muts []c18mut) {
 	nonEmptySlices := len(a0)
 	sides := []jsonapi.Resource{src, cp}
 	fields, relData := t.FieldNames(), map[string][]string{t.Name: t.RelNames()}
+	typeEdited := map[int]bool{}
 	for i, mu := range muts {
 		active, other := sides[mu.Side], sides[1-mu.Side]
 		var before, freshBefore resSnap
@@ -336,7 +337,20 @@ func (m c18) run(c *Ctx, t *TypeSpec, rs *ResSpec, muts []c18mut) {
 			case "type-edit":
 				sr, ok := active.(*jsonapi.SoftResource)
 				if !ok {
-					applied = false
+					// a wrapped resource exposes its type through GetType / Attrs / Rels
+					gt := active.GetType()
+					switch mu.Field {
+					case "extra":
+						_ = gt.AddAttr(jsonapi.Attr{Name: "extra", Type: KInt})
+						_ = gt.AddRel(jsonapi.Rel{FromName: "extrarel", ToType: "x"})
+					case "bytes", "one":
+						gt.RemoveAttr(mu.Field)
+						gt.RemoveRel(mu.Field)
+					default:
+						delete(active.Attrs(), mu.Field)
+						delete(active.Rels(), mu.Field)
+					}
+					typeEdited[mu.Side] = true
 					return
 				}
 				switch mu.Field {
@@ -373,6 +387,10 @@ func (m c18) run(c *Ctx, t *TypeSpec, rs *ResSpec, muts []c18mut) {
 			c.Violate("mutation-leaks-into-new/"+impl+"/"+mu.Kind, "mutating the %s (%s) changed the resource returned by New(): %s; %s", who[mu.Side], mu.Kind, d, desc(i+1))
 			return
 		}
+		if typeEdited[mu.Side] && t.Wrapped {
+			c.Count("mut/type-edit-wrapped")
+			break // that side's field tables no longer match its struct; reading it further is not meaningful
+		}
 	}
 	// mutating the New() instance does not reach the source
 	{
@@ -390,6 +408,13 @@ func (m c18) run(c *Ctx, t *TypeSpec, rs *ResSpec, muts []c18mut) {
 				sr.AddAttr(jsonapi.Attr{Name: "fresh-extra", Type: KString})
 				sr.AddRel(jsonapi.Rel{FromName: "fresh-extra-rel", ToType: "x"})
 				sr.RemoveField("one")
+			} else {
+				// removing fields of the new instance's type through the tables it exposes
+				gt := fresh.GetType()
+				gt.RemoveAttr("bytes")
+				gt.RemoveRel("one")
+				delete(fresh.Attrs(), "nbytes")
+				delete(fresh.Rels(), "many")
 			}
 			after = snapshotRes(src)
 		}); pi == nil {
